@@ -396,6 +396,7 @@ func (m *monitor) encCase(ci int, c encCase, segs []segSpec) {
 		}
 	}
 	hc, hi := m.handovers(c, fm, label, pt, recips, base, hdr16, replay)
+	m.encryptIfaces(c, fm, label, pt, recips, base, replay)
 	h := sha256.Sum256(base.out)
 	r.SampleN("enc-"+fm, 2, map[string]any{"case": c.name(), "tape_label": label, "ciphertext_bytes": len(base.out),
 		"ciphertext_sha256_prefix": hex.EncodeToString(h[:8]), "segmentations_compared_with_single_write": compared, "byte_identical": identical,
